@@ -28,8 +28,8 @@ PROPS = {
         level="exploration",
         rule="tape-decoded systems. Block part (b=2,3,4; static_matrix and Eigen blocks): graph families path/grid2/grid2x9/grid3/er/tree/band/star/union with an SPD "
              "M-matrix M (contrast<=10) expanded as M (x) I_b, M (x) B (B SPD, optionally with structural zeros), a symmetric strictly diagonally dominant block-structured "
-             "M-matrix whose off-diagonal blocks carry random structural masks (kind 2), or the same with entries of both signs (kind 3: not a model problem, only truthfulness is asserted, "
-             "Krylov breakdown exceptions are tolerated); every representation (adapter::block_matrix, crs<block>, block-valued tuple, unblock_matrix, "
+             "M-matrix whose off-diagonal blocks carry random structural masks (kind 2), or the same with entries of both signs (kind 3: not a model problem, only truthfulness is asserted); a 'Zero rho/omega in BiCGStab' exception is a clean breakdown report and accepted (labelled) "
+             "on every input; every representation (adapter::block_matrix, crs<block>, block-valued tuple, unblock_matrix, "
              "builtin_hybrid::copy_matrix, level-0 matrix of the hierarchies) is compared entry by entry (bitwise) and by SpMV (long double reference, bound c*u*sum|a||x|) with the "
              "scalar matrix; six formulations (block value type via adapter / via block tuple, make_block_solver 2- and 3-argument, coarsening::as_scalar, builtin_hybrid, "
              "relaxation::as_block) are solved, the 3-argument forms (block adapter + amg<block>, make_block_solver, builtin_hybrid) additionally with a matrix A1 that differs from the setup matrix (2A, or diagonal +10..50% and off-diagonals x0.6..1), and the true residual of the SCALAR system (long double) is compared with the reported one (two-sided, drift allowance "
